@@ -167,6 +167,9 @@ class Sim:
                 if pt in occ and not any(
                         e[0] == pt[0] and e[1] is occ[pt] for e in exp):
                     exp.append((pt[0], occ[pt]))
+            # the same points, some of them given by negative indices
+            sel = [(k - nc if rng.random() < 0.25 else k,
+                    q - n if rng.random() < 0.15 else q) for k, q in sel]
             chk('get_operations', lambda: (lambda got: len(got) == len(exp)
                 and all(g is e[1] for g, e in zip(got, exp)))(
                     c.get_operations(sel)))
